@@ -189,6 +189,9 @@ def judge(out):
     return probs
 
 def replay(ctx, v):
+    if v.get('kind') == 'export-overwrites':
+        from . import c15
+        return c15.replay_export(ctx, v)
     feats = v['case'].get('features')
     nat = ctx.native(tuple(f for f in feats if f != 'HashSet')) if feats else ctx.native()
     out = nat.call(native_cmd(v['case']), timeout=30)
@@ -204,6 +207,7 @@ def replay(ctx, v):
     return 'not-reproduced', {'native_output': out}
 
 def key(v):
+    if v.get('kind') == 'export-overwrites': return 'export-overwrites:%s' % v['case']['mode']
     c = v['case']; return '%s:%s' % (v['kind'], json.dumps([c['mode'], c['n'], c['tabs'], c['history'], c['final'], c.get('features')] + (['novars'] if c.get('novars') else [])))
 
 
@@ -256,9 +260,15 @@ def spec(ctx, tier, seed):
         for mode in ('nodelist', 'serde'):
             jobs.append(Job('n3-%d-%s-%s=>%s' % (i, mode, '+'.join(h) or 'fresh', f), mod, 'persist_job', {'n': 3, 'fam': fam, 'history': h, 'final': f, 'mode': mode}, stop_after_violations=40))
         jobs.append(Job('n3-%d-bridged-nodelist-%s=>%s' % (i, '+'.join(h) or 'fresh', f), mod, 'persist_job', {'n': 3, 'fam': fam, 'history': h, 'final': f, 'mode': 'nodelist', 'novars': True}, stop_after_violations=40))
+    # the CLI half: App::run of the binary crate with --export, on a stub file system whose exists() is a solver variable
+    from . import c15
+    ek = c15.engine(ctx)
+    for mode in ('naive', 'hybrid', 'biodivine'):
+        jobs.append(Job('cli-export-%s' % mode, 'harness.c15', 'export_job', {'text': c15.TEXTS[0], 'mode': mode, 'export': 'out.json', 'free': ['grounded', 'stable']}, engine_key=ek, stop_after_violations=5))
     jobs.append(Job('canary', mod, 'persist_job', {'n': 2, 'fam': ['sym', 'sym'], 'history': [], 'final': 'grounded', 'mode': 'nodelist', 'canary': True}, stop_after_violations=1, canary=True))
     return {'jobs': jobs, 'level': 'model_checking', 'allowed_status': ('ok', 'panic', 'bound'),
             'assumptions': ASSUMPTIONS + ['serde_json encodes/decodes according to the derive attributes of Bdd and Adf (read from the source each run; validated natively against real serde_json on %d cases per run)' % (12 if tier == 'quick' else 40)],
             'bounds': 'all 256 two-statement ADFs and seeded 3-statement families, on native-shaped stores (variable nodes first) and bridged-shaped stores (only the diagrams nodes, as Adf::from_biodivine_vector leaves them); export after histories of 0-2 calls from {%s}; both round trips; final queries {%s}; '
                       'after import: node list and roots index by index, answer vs fresh object, audit of var_deps / count_cache / unique table and the C06 invariants' % (', '.join(HISTORY), ', '.join(FINALS)),
-            'outside': 'serde_json encoder/decoder internals; the CLI half (never overwriting an export file) is file-system behaviour (C15); the web service string encoding of the node list is covered under C16'}
+            'outside': 'serde_json encoder/decoder internals; the operating system behind File::create (the CLI half runs App::run on a stub file system: exists() answers with a solver variable, '
+                       'a create of a path not known to be absent is the violation, replayed with the real binary on a real existing file); the web service string encoding of the node list is covered under C16'}
